@@ -49,7 +49,9 @@ Definition judge_flat (svg : bool) (prefix value : list Z) (outs : list (list Z)
       match find_prefixed prefix outs with
       | None => v_specfail "c07-content" (sym "no-line")
       | Some payload =>
-        if negb (bytes_eqb (nonws payload) (nonws value)) then v_specfail "c07-content" (B (nonws payload))
+        (* characters exist only in well-formed UTF-8; on ill-formed input gluing two lines can form a
+           new rune (Props/C07.v c07_flatten_keeps_joins), so only no-LF and the model are checked there *)
+        if utf8_valid value && negb (bytes_eqb (nonws payload) (nonws value)) then v_specfail "c07-content" (B (nonws payload))
         else
           let m := one_line (if svg then strip_lb_svg value else strip_lb value) in
           if bytes_eqb m payload then v_ok true else v_mismatch (B m)
